@@ -20,7 +20,7 @@ def run(ctx):
         "the bounded fibre::mpsc channel is represented by its sequential FIFO specification plus a visible/in-flight distinction (its internals are C01-C05)",
         "HashMap iteration orders are arbitrary lists; byte length and char count order prefixes of one target identically",
         "routing is exercised through custom-stream appenders; the writer-thread loop is exercised by the shutdown-race tie with one file appender (console / rolling_file share run_byte_appender_writer)",
-        "F12b (accepted in-flight send lost when the writer exits) is not observable from outside the process: `log!`/`event!` do not return the send result; it is proved on the model only",
+        "F12b (accepted events lost when the writer's final try_recv drain stops at an in-flight send) is timing dependent: the shutdown-race tie observes it only rarely (listed known finding pipeline:writer-lost-event-accepted-before-shutdown); on the model it is a decide-witness",
         "tracing callsite interest caching is sound because DispatchLayer::enabled depends on (target, level) only",
     ]
     if ctx.replay:
